@@ -96,3 +96,58 @@ for d in sorted(os.listdir(root)):
     }
     json.dump(meta, open(os.path.join(p, 'meta.json'), 'w'), indent=1)
     print(d, [ (c['check'], c['exit']) for c in meta['checks_run']])
+
+# round 3: module-targeted (agent N was confined to a few source files and given all 18 property texts)
+NEEDS3 = {
+ "M1-a": ("C04/C16", "src/lib.rs (FAT reading)", "permissive FAT tail stripping `>` became `>=`: the last physical sector's FAT cell is dropped when it is 0", "a foreign layout where sector 0 is a non-first chain member whose predecessor is the last sector of the file"),
+ "M1-b": ("C18", "src/internal/header.rs", "the 6 reserved header bytes are skipped with read() instead of read_exact()", "a backend cutting that read below 6 bytes or raising Interrupted on exactly that call"),
+ "M1-c": ("C02/C04", "src/internal/consts.rs + DIFAT reading", "DIFAT entries per sector hard-wired to 127 when reading", "version 4 AND a DIFAT sector: a self-written file > 457 MB or a foreign V4 layout with > 109 FAT sectors"),
+ "M2-a": ("C03/C02", "src/internal/alloc.rs", "append_fat_sector counts the DIFAT sector's link slot as an entry slot", "a V3 file with more than 236 FAT sectors (> 15.5 MB), then the bytes reopened / checked"),
+ "M2-b": ("C08", "src/internal/alloc.rs", "free-list sectors are not re-initialised for SectorInit::Zero", "a regular stream with non-zero data freed, then another stream grown by set_len into those sectors"),
+ "M2-c": ("C05/C11", "src/internal/alloc.rs", "Allocator::next range check `>=` became `>`", "a corrupted start sector exactly equal to the sector count: index-out-of-bounds panic"),
+ "M3-a": ("C13/C02", "src/internal/minialloc.rs", "set_minifat updates the in-memory MiniFAT before the cell is written", "a write fault on exactly a MiniFAT cell write, retried flush returns Ok, then the BYTES reopened: stream cannot be read"),
+ "M3-b": ("C04/C11", "src/internal/minialloc.rs", "new mini sector index taken from root.stream_len/64 instead of minifat.len()", "a foreign file whose mini stream ends in free mini sectors, then the first allocation of a new mini sector"),
+ "M3-c": ("C03", "src/internal/minichain.rs", "MiniChain::set_len round-up lost its -1", "Stream::set_len(n) below 4096 with n a multiple of 64: one mini sector too many in the chain"),
+ "M4-a": ("C06", "src/internal/stream_buffer.rs", "write_bytes sets the filled mark unconditionally", "write N, seek back inside the buffered window, write fewer bytes than remain: dirty tail dropped"),
+ "M4-b": ("C18", "src/internal/chain.rs", "Chain::write pops a just-appended sector id again when the first write into it fails", "Interrupted exactly on the first data write into a freshly appended sector of a regular chain"),
+ "M4-c": ("C03", "src/internal/chain.rs", "Chain::set_len computes new_len / sector_len + 1 sectors", "Stream::set_len(n) with n >= 4096 an exact multiple of the sector size"),
+ "M5-a": ("C15", "src/internal/directory.rs", "free_dir_entry pops trailing Unallocated entries from the in-memory vector", "directory slots in use an exact multiple of 4 (V3) / 32 (V4), then a create+remove cycle: one directory sector leaked per cycle"),
+ "M5-b": ("C18", "src/internal/direntry.rs", "write_clsid uses write() instead of write_all() for the 8-byte tail", "a backend splitting or interrupting exactly that <= 8-byte write"),
+ "M5-c": ("C16", "src/internal/directory.rs", "Directory::validate passes parent_is_red = false along right-sibling links", "two adjacent red nodes joined by a right link: strict accepts"),
+ "M6-a": ("C09/C03/C04", "src/internal/path.rs", "equal-length non-ASCII names compared by upper-cased code points instead of UTF-16 code units", "same-length siblings where a supplementary-plane char meets a char in U+E000..U+FFFF"),
+ "M6-b": ("C14", "src/internal/entry.rs", "Entries::next descends through a helper that takes the read lock again", "walk() over a non-empty storage concurrent with a stream writer queued between the two acquisitions"),
+ "M6-c": ("C09/C10/C01", "src/internal/path.rs", "`..` above the root is clamped for absolute paths", "an absolute path with more `..` than names: no longer refused, mutating calls act on another object"),
+ "M7-a": ("C14", "src/lib.rs", "is_storage holds a read guard while calling a helper that takes it again", "is_storage() concurrent with stream I/O, writer queued between the two acquisitions"),
+ "M7-b": ("C01/C09", "src/lib.rs", "create_storage_all returns Ok early when the whole path exists, whatever its type", "create_storage_all(p) where p names an existing STREAM (last component)"),
+ "M7-c": ("C16/C18", "src/lib.rs", "OpenOptions::open(path) drops the options (strict, max_buffer_size)", "a real file on disk opened read-only BY PATH with .strict() / .max_buffer_size()"),
+ "M8-a": ("C13", "src/internal/stream.rs", "Stream::flush only flushes the underlying file when the handle still holds dirty data", "write, then seek away / read on (write-back happens), then flush() on a backend whose flush matters (write-back cache)"),
+ "M8-b": ("C08", "src/internal/stream.rs", "mini->regular migration on set_len copies the whole mini chain incl. the stale tail", "a small stream with stale bytes in its last mini sector grown by set_len past 4096"),
+ "M8-c": ("C06/C08/C18", "src/internal/stream.rs", "set_len clears the handle buffer only when the position was clamped", "buffered bytes beyond the new length and position <= new length, then reads"),
+}
+for d in sorted(os.listdir(root)):
+    p = os.path.join(root, d)
+    if not os.path.isdir(p) or d not in NEEDS3: continue
+    n = d[1:].split('-')[0]
+    notes = f'/tmp/wv_{n}/out/notes.md'
+    if os.path.exists(notes): shutil.copy(notes, os.path.join(p, 'notes.md'))
+    run = {}
+    if os.path.exists(os.path.join(p, 'run.json')):
+        try: run = json.load(open(os.path.join(p, 'run.json')))
+        except Exception as e: run = {"error": str(e)}
+    # keep results of earlier evaluations of other checks (run.json holds the latest call only)
+    old = {}
+    if os.path.exists(os.path.join(p, 'meta.json')):
+        try: old = {c['check']: c for c in json.load(open(os.path.join(p, 'meta.json'))).get('checks_run', [])}
+        except Exception: old = {}
+    for c in run.get("checks", []): old[c['check']] = c
+    props, module, change, needs = NEEDS3[d]
+    meta = {
+      "property": props, "mutant": d, "origin": "independent sub-agent (round 3) confined to the named source file(s), given the texts of all 18 properties and a scratch worktree of /repo; it chose which property to break",
+      "module": module, "change": change, "needs_to_manifest": needs,
+      "files": {"patch": "patch.diff (git apply in /repo)", "demonstration": "demo.rs (integration test: fails with the patch, passes without)", "notes": "notes.md (the sub-agent's own notes, all three mutants of that agent)"},
+      "confirmed": {"how": "SEEDED_ROUND3=1 tools/seeded_eval.sh: in the scratch worktree the demo was run without and with the patch and the full suite with the patch; then the patch was applied to /repo's working tree, the named quick checks were run, and the tree was restored",
+                    "suite_with_patch": run.get("suite_with_mutant"), "demo_without_patch": run.get("demo_without_mutant"), "demo_with_patch": run.get("demo_with_mutant")},
+      "checks_run": [old[k] for k in sorted(old)],
+    }
+    json.dump(meta, open(os.path.join(p, 'meta.json'), 'w'), indent=1)
+    print(d, [ (c['check'], c['exit']) for c in meta['checks_run']])
